@@ -21,8 +21,7 @@ Not modelled: constraints (`add_constraint`; the generated conditions are opaque
 variables, `ReferencingValue` (global / nonlocal), lookups from nested functions, `del`, `match`, comprehension
 scopes, `assert` / `NoReturn` calls setting `%LEAVES_SCOPE`.
 -/
-namespace Pya
-namespace Sc
+namespace Pya.C09
 
 /-! ## Syntax of statement skeletons -/
 mutual
@@ -261,5 +260,4 @@ def diagOf (ds : List Node) : Diag :=
   if ds.all (· == none) then .undefined
   else if ds.contains none then .possibly else .ok
 
-end Sc
-end Pya
+end Pya.C09
